@@ -134,3 +134,11 @@ package schemas
 //@   ensures [C13,C10] any-other-file-is-read-as-json: call_result("QualifiedFileName", 0) == "dir/address.json" ==> called_with("FromJSONFile", 0, "dir/address.json") && call_count("FromYAMLFile") == 0
 //@   ensures [C18,C10] a-reference-that-does-not-resolve-fails: call_failed("QualifiedFileName") ==> result1 != nil
 //@   ensures [C18] read-errors-propagate: (call_failed("FromYAMLFile") || call_failed("FromJSONFile")) ==> result1 != nil
+
+// ---- where the environment may be consulted (C12) --------------------------------
+// Resolving a reference needs the directory of the referring document and the file
+// system; the resolved path is used to READ the file (and as a key for references
+// from it), and only the content read reaches the output.
+//@ func QualifiedFileName@environment
+//@   props C12
+//@   envdep Dir EvalSymlinks: a relative reference is resolved against the referring document's directory and through symlinks; the path is used to read the file, only its content reaches the output
